@@ -82,7 +82,7 @@ func init() {
 	register(&Property{
 		ID: "C06",
 		Explanation: "Decides structural necessary conditions of behaviour-preserving minimization: GUARD(entry): minimize consults Grammar.Inputs so that entry states (referenced by index from generated Parse*/lookahead functions) stay apart. GUARD(final): the initial partition consults Tables.FinalStates (reaching `end` stops the parse, which no action signature records). FIELDCOV(minimize): the rule-class key is built from LHS, RuleLen (as popped by the parser), action, node type and flags; every Tables field that holds or is indexed by state numbers is rewritten on the merge path; new Tables fields must be classified; the refinement signature contains own partition, edge symbol and target partition. " +
-			"MUSTPASS(compile-order): minimize runs after conflict resolution and before Optimize. KEYCOPY: the interning containers that partition states by signature store a copy of the signature, never the caller's (reusable) slice. AGREE(memo-key): generated code identifies a lookahead by its entry state (kept apart), never by its final state (merged with other final states). SIGNATURE(lalr-cell): each element of a lookahead state's initial signature is the Lalr cell itself or ruleClass[cell], never a constant standing for a class of cells. LOCKSTEP(rule-copy): the action id that keeps rules with different default-cast behaviour apart is stored into the lalr copy of the rule (the one minimize keys on) whenever it is stored into the grammar copy (the one applyRule is generated from). Not decided: that Moore refinement yields a behaviourally equivalent automaton on all inputs. ACCESSOR(len): IntSliceSet.Len(), the convergence measure of the refinement loop, returns the counter Insert advances per new element. GUARD(final) also requires the protected set to hold the elements of Tables.FinalStates.",
+			"MUSTPASS(compile-order): minimize runs after conflict resolution and before Optimize. KEYCOPY: the interning containers that partition states by signature store a copy of the signature, never the caller's (reusable) slice. AGREE(memo-key): generated code identifies a lookahead by its entry state (kept apart), never by its final state (merged with other final states). SIGNATURE(lalr-cell): each element of a lookahead state's initial signature is the Lalr cell itself or ruleClass[cell], never a constant standing for a class of cells. LOCKSTEP(rule-copy): the action id that keeps rules with different default-cast behaviour apart is stored into the lalr copy of the rule (the one minimize keys on) whenever it is stored into the grammar copy (the one applyRule is generated from). Not decided: that Moore refinement yields a behaviourally equivalent automaton on all inputs. ACCESSOR(len): IntSliceSet.Len(), the convergence measure of the refinement loop, returns the counter Insert advances per new element. GUARD(final) also requires the protected set to hold the elements of Tables.FinalStates. SIGNATURE(lalr-cell) also requires every (terminal, action) pair of a row to be appended.",
 		Rules: []string{"GUARD(entry)", "GUARD(final)", "FIELDCOV(minimize)", "MUSTPASS(compile-order)", "KEYCOPY", "LOCKSTEP(rule-copy)", "SIGNATURE(lalr-cell)", "AGREE(memo-key)", "GUARD(optimize-la)", "ACCESSOR(len)"},
 		Run: func(c *Ctx) {
 			ruleENTRYGUARD(c)
@@ -274,8 +274,8 @@ func init() {
 		ID: "C01",
 		Explanation: "Decides structural necessary conditions of 'generated parsers accept exactly the language' across table writers (lalr/) and readers (the five committed generated parsers and js's hand-written parse loop): CODEC(parser): every read of the packed table is guarded by 0 <= pos < tmTableLen, -2-action is used as a state only for action < -1, rule tables are indexed only with action >= 0. SIBLING(gotoState): the generated default-encoding gotoState has the same comparisons, index arithmetic and returns as lalr.(*DefaultEnc).gotoState. ENTRY: the i-th exported Parse* starts in state i with a final state that is not an entry state. " +
 			"GUARD(markerfree): RuleLen counts only non-marker symbols. CODEC(optimize), GUARD(usedBase), GUARD(dedupe), GUARD(entry), FIELDCOV(minimize), MUSTPASS(compile-order), MUSTPASS(nonassoc-rewrite): the writers keep the encodings consistent. FRESH(lookahead): every read of p.next in each parse() is dominated by a definition made in the same call (no stale lookahead on a reused Parser). RESET(histogram): reused counter slices of Optimize/pickDefault are zeroed per state. PERITEM(flag): boolean fields of per-item records (Input.NoEoi, ...) are not carried around the loop that builds them. " +
-			"Not decided: correctness of the LR(0)/LALR construction and of the shift/reduce loop as algorithms; the error-location clause. TYPESTATE(lookahead): positions of p.next are read only while a lookahead is fetched. DTX(lr0-shift): a state with a reduction that gains a shift consults the lookahead. GUARD(final): minimize keeps final states apart from ordinary states. DTX(assocmap)/LOCKSTEP(precGroup)/GUARD(optimize-la) run as part of the shared precedence and compile-order rules (see C04, C05). GUARD(dedicated-accept): the state that receives the end-of-input shift is created for its input, or is a goto target that no other state has a transition into (an input nonterminal reachable from itself must not end the parse in an inner context).",
-		Rules: []string{"CODEC(parser)", "SIBLING(gotoState)", "DTX(lr0-shift)", "ENTRY", "GUARD(markerfree)", "CODEC(optimize)", "GUARD(usedBase)", "GUARD(dedupe)", "GUARD(entry)", "GUARD(final)", "FIELDCOV(minimize)", "MUSTPASS(compile-order)", "MUSTPASS(nonassoc-rewrite)", "FRESH(lookahead)", "TYPESTATE(lookahead)", "RESET(histogram)", "PERITEM(flag)", "DTX(assocmap)", "GUARD(optimize-la)", "LOCKSTEP(precGroup)", "GUARD(dedicated-accept)"},
+			"Not decided: correctness of the LR(0)/LALR construction and of the shift/reduce loop as algorithms; the error-location clause. TYPESTATE(lookahead): positions of p.next are read only while a lookahead is fetched. DTX(lr0-shift): a state with a reduction that gains a shift consults the lookahead. GUARD(final): minimize keeps final states apart from ordinary states. DTX(assocmap)/LOCKSTEP(precGroup)/GUARD(optimize-la) run as part of the shared precedence and compile-order rules (see C04, C05). GUARD(dedicated-accept): the state that receives the end-of-input shift is created for its input, or is a goto target that no other state has a transition into (an input nonterminal reachable from itself must not end the parse in an inner context). FIELDCOV(rebuild): a record rebuilt from another record of its type (syntax.Input in Instantiate) gives every field.",
+		Rules: []string{"CODEC(parser)", "SIBLING(gotoState)", "DTX(lr0-shift)", "ENTRY", "GUARD(markerfree)", "CODEC(optimize)", "GUARD(usedBase)", "GUARD(dedupe)", "GUARD(entry)", "GUARD(final)", "FIELDCOV(minimize)", "MUSTPASS(compile-order)", "MUSTPASS(nonassoc-rewrite)", "FRESH(lookahead)", "TYPESTATE(lookahead)", "RESET(histogram)", "PERITEM(flag)", "DTX(assocmap)", "GUARD(optimize-la)", "LOCKSTEP(precGroup)", "GUARD(dedicated-accept)", "FIELDCOV(rebuild)"},
 		Run: func(c *Ctx) {
 			ruleTABLEIDX(c)
 			ruleGOTOSIBLING(c)
@@ -292,6 +292,7 @@ func init() {
 			rulePRECPLUMBING(c)
 			ruleFRESH(c)
 			rulePEEK(c)
+			ruleREBUILD(c, "syntax", "compiler", "grammar", "lalr")
 			ruleACCEPTSTATE(c)
 			ruleRESET(c, "lalr")
 			rulePERITEM(c, "compiler", "syntax", "lalr", "grammar")
@@ -319,10 +320,11 @@ func init() {
 	register(&Property{
 		ID: "C16",
 		Explanation: "Decides structural necessary conditions of 'semantic action references bind to the right symbols': STACKIDX on the code emitted for $-references in every committed applyRule case (slots inside the rule, or inside the prefix for mid-rule actions). GUARD(markerfree): ActionVars.SymRefCount (the stack depth references are computed from) counts only non-marker symbols. " +
-			"LOCKSTEP(reference): ActionVars.resolve reports the position whose stack index it returns (the generator picks the type assertion by position). GUARD(remap-markerfree): the position remap stores the count of pushed symbols (never a length of rule.RHS, which includes state markers). FIELDCOV(extract-pos): the reference that replaces an extracted set/list carries expr.Pos on every path to its return. Not decided: that K is the slot of the named symbol in every expansion. FIELDCOV(action-key): every ActionVars field that commandExtractor.extract consults (SymRefCount becomes the stack offset) is part of ActionVars.String(), the key under which identical mid-rule actions share one nonterminal. FIELDCOV(renumber): both passes that renumber nonterminals (Instantiate, Rearrange) write every record that holds symbol numbers: Expr.Symbol, ArgRef.Symbol (the table $-references and their types resolve against), TokenSet.Symbol, Input.Nonterm.",
-		Rules: []string{"STACKIDX", "GUARD(markerfree)", "LOCKSTEP(reference)", "GUARD(remap-markerfree)", "FIELDCOV(extract-pos)", "FIELDCOV(action-key)", "FIELDCOV(renumber)"},
+			"LOCKSTEP(reference): ActionVars.resolve reports the position whose stack index it returns (the generator picks the type assertion by position). GUARD(remap-markerfree): the position remap stores the count of pushed symbols (never a length of rule.RHS, which includes state markers). FIELDCOV(extract-pos): the reference that replaces an extracted set/list carries expr.Pos on every path to its return. Not decided: that K is the slot of the named symbol in every expansion. FIELDCOV(action-key): every ActionVars field that commandExtractor.extract consults (SymRefCount becomes the stack offset) is part of ActionVars.String(), the key under which identical mid-rule actions share one nonterminal. FIELDCOV(renumber): both passes that renumber nonterminals (Instantiate, Rearrange) write every record that holds symbol numbers: Expr.Symbol, ArgRef.Symbol (the table $-references and their types resolve against), TokenSet.Symbol, Input.Nonterm. CONSISTENT(scope-map): the existence probes by which pushName finds a free name#N all consult the same (top-level) map.",
+		Rules: []string{"STACKIDX", "GUARD(markerfree)", "LOCKSTEP(reference)", "GUARD(remap-markerfree)", "FIELDCOV(extract-pos)", "FIELDCOV(action-key)", "FIELDCOV(renumber)", "CONSISTENT(scope-map)"},
 		Run: func(c *Ctx) {
 			ruleREMAP(c)
+			ruleSCOPEMAP(c)
 			ruleRENUMBER(c)
 			ruleACTIONKEY(c)
 			ruleEXTRACTPOS(c)
@@ -364,7 +366,7 @@ func init() {
 		ID: "C07",
 		Explanation: "Decides structural necessary conditions of 'LALR(k) resolution never changes the language': CODEC(deep-pointer): lookahead pointers are encoded as -3-offset by every writer (trie emitter, populateTables, the Lalr patch) and decoded as -action-3 by every reader (Optimize, minimize's partitioning, each generated lalr()), and generated parse loops treat action < -2 as a pointer. MUSTPASS(trie-id): a minimized trie node receives its id before it is published in the shared cache. " +
 			"DTX(resolved-flag): a conflict is marked resolved only if no lookahead terminal failed (the flag only moves from true to false inside the terminal loop); UsedLADepth is raised with every patched pointer. GUARD(optimize-la): tables with pointers are not handed to Optimize. ORDER: the trie's map iterations are sorted (C18). GUARD(terminal-follow): both phases of buildLA (in-rule and cross-rule) contribute to the follow sets of terminal transitions when follow sets hold transitions (k>1). LOOPSHAPE(collect-all): the loops that gather a rule's transitions on the conflict terminal run to exhaustion. WHOCALLS(Lexer.Next): the deep-lookahead loop (like every parser-side fetch) reads tokens through the filter that drops injected comment/invalid tokens. " +
-			"Not decided: soundness of the trie (which rule a lookahead string selects). MUSTPASS(compile-order): lookahead resolution runs after the tables are populated and before conflicts are reported.",
+			"Not decided: soundness of the trie (which rule a lookahead string selects). MUSTPASS(compile-order): lookahead resolution runs after the tables are populated and before conflicts are reported. MUSTPASS(trie-id) also requires the id counter to be a field of the builder that owns the cross-conflict cache; GUARD(terminal-follow) requires the terminal case of the cross-rule phase to sit in the same backward walk as the nonterminal case.",
 		Rules: []string{"CODEC(deep-pointer)", "MUSTPASS(trie-id)", "DTX(resolved-flag)", "GUARD(optimize-la)", "GUARD(terminal-follow)", "WHOCALLS(Lexer.Next)", "LOOPSHAPE(collect-all)", "MUSTPASS(compile-order)"},
 		Run: func(c *Ctx) {
 			ruleCOLLECTALL(c)
